@@ -335,6 +335,13 @@ impl TypedCmd {
                                     }
                                 }
                                 if swallow {
+                                    // carries on with a default, and looks once more for an optional trailing parameter:
+                                    // there is none in this unit (never an error, never an element of the next unit)
+                                    match params.next_optional_data::<i64>() {
+                                        Ok(Some(v)) => dev.got.push(TV::I64(v)),
+                                        Ok(None) => dev.got.push(TV::Absent),
+                                        Err(e) => dev.got.push(TV::Err(e.get_code())),
+                                    }
                                     return Ok(());
                                 }
                             }
@@ -483,6 +490,7 @@ pub fn run_typed(cfg: &Cfg, rep: &mut Report) {
                     }
                     if swallow {
                         expect_err = None;
+                        want.push(TV::Absent);
                     }
                     ctx.count("typed.persistent-handler");
                 }
